@@ -117,7 +117,7 @@ def world_u():
 def plan(tier):
     W = worlds.curated()
     if tier == "quick":
-        names = ["chain", "csum-deep", "always", "fail", "dynamic"]
+        names = ["chain", "csum-deep", "always", "fail", "dynamic", "ifcreate"]
         return [(W[n], alphabet, 3, 1) for n in names] + [(world_u(), alphabet_u, 2, 2)]
     return [(W[n], alphabet, 4) for n in W] + [(world_u(), alphabet_u, 4, 3)]
 
